@@ -286,6 +286,55 @@ pub fn stalled_capacity(g: &mut G) -> Scenario {
     Scenario { actors: vec![a], clients, probes, peer_slots: false, erase: None, expect: None }
 }
 
+/// C07 / C02 / C09: an operation that is *abandoned* (cancelled after a few polls, cancelled by a timer, or the loser
+/// of a race) while it waits for room in a full mailbox must leave nothing behind: the same kind of operation issued
+/// later - through the same or through another handle - works as if the first one had never been started.
+pub fn abandoned_ops(g: &mut G) -> Scenario {
+    let cap = g.pick(&[1usize, 1, 2, 3]);
+    let a = ActorSpec { cap: Some(cap), ..Default::default() };
+    // client 0: one message whose handler waits for the barrier, then exactly `cap` more: the mailbox is full
+    let mut c0 = vec![Op::Tell { h: 0, m: Msg::with(g.mid(), vec![Op::Wait(1)]) }, Op::Yield(2)];
+    for _ in 0..cap {
+        c0.push(tell(0, g));
+    }
+    // client 1: abandons an operation on the full mailbox, releases the actor, then does it again for good
+    let mut c1 = vec![Op::Sleep(2)];
+    let other = 60;
+    let via_other = g.chance(500);
+    if via_other {
+        c1.push(match g.below(3) {
+            0 => Op::Clone { h: 0, to: other },
+            1 => Op::AsControl { h: 0, to: other },
+            _ => Op::Erase { h: 0, to: other, kind: EraseKind::Ctl, by_ref: true },
+        });
+    }
+    let kind = g.below(4); // 0,1: stop; 2: tell; 3: ask
+    let victim = |g: &mut G| match kind {
+        0 | 1 => Op::Stop { h: 0 },
+        2 => tell(0, g),
+        _ => ask(0, g),
+    };
+    let v = victim(g);
+    c1.push(match g.below(3) {
+        0 => Op::Cancel { op: Box::new(v), polls: g.range(1, 2) as u32, ms: None },
+        1 => Op::Cancel { op: Box::new(v), polls: 0, ms: Some(g.range(1, 3)) },
+        _ => Op::Race(vec![v, Op::Sleep(g.range(1, 3))]),
+    });
+    c1.push(Op::Sleep(3));
+    c1.push(Op::Signal(1));
+    c1.push(Op::Sleep(5));
+    let again = match kind {
+        0 | 1 => Op::Stop { h: if via_other { other } else { 0 } },
+        2 => tell(0, g),
+        _ => ask(0, g),
+    };
+    c1.push(again);
+    if kind >= 2 && g.chance(500) {
+        c1.push(Op::Stop { h: if via_other { other } else { 0 } });
+    }
+    Scenario { actors: vec![a], clients: vec![c0, c1], probes: vec![], peer_slots: false, erase: None, expect: None }
+}
+
 /// C10: the natural completion time of the operation placed before / at / after / never relative to
 /// the deadline, with the mailbox free, full or closed and the actor possibly dying first.
 pub fn deadline_alignment(g: &mut G) -> Scenario {
